@@ -99,6 +99,26 @@ def names(e):
     return list(dict.fromkeys(out))
 
 
+def local_names(ins, loc):
+    """names of thread-local variables read by an instruction"""
+    e = ins[1] if ins[0] == "if" else ins[2] if ins[0] == "assign" else None
+    if e is None:
+        return []
+    return list(dict.fromkeys(n.id for n in ast.walk(e) if isinstance(n, ast.Name) and n.id in loc))
+
+
+def _type_of(e):
+    if isinstance(e, (ast.Compare, ast.BoolOp)) or (isinstance(e, ast.UnaryOp) and isinstance(e.op, ast.Not)):
+        return "bool"
+    if isinstance(e, ast.Constant) and isinstance(e.value, bool):
+        return "bool"
+    if isinstance(e, ast.Call) and ast.unparse(e.func) == "gc.isenabled":
+        return "bool"
+    if isinstance(e, ast.Name) and SHARED.get(e.id) == "bool":
+        return "bool"
+    return "int"
+
+
 def reads_of(ins):
     if ins[0] == "acquire":
         return ["lock"]
@@ -236,6 +256,7 @@ def encode(progs, enter, exit_, timeout_ms, witness=False):
     s.set("timeout", timeout_ms)
     gc0 = z3.Bool("gc0")
     writes = {v: [] for v in SHARED}
+    types = dict(SHARED)
     init = {"_active_z3_calls": z3.IntVal(0), "_gc_was_enabled": z3.BoolVal(False), "gc": gc0, "lock": z3.IntVal(-1)}
     for v in SHARED:
         writes[v].append((z3.BoolVal(True), z3.IntVal(0), init[v]))
@@ -252,6 +273,16 @@ def encode(progs, enter, exit_, timeout_ms, witness=False):
         s.add(lim >= 0, lim <= n, g[0])
         inc = {k: [] for k in range(n + 1)}
         prevc = z3.IntVal(0)
+        # local variables of the guard functions (e.g. a flag read before the lock is taken): one variable per thread, written and read
+        # through the same reads-from relation as the shared ones (only this thread writes it)
+        loc = {}
+        for ins in flat:
+            if ins[0] == "assign" and ins[1] not in SHARED:
+                loc[ins[1]] = _type_of(ins[2])
+        for name, t in loc.items():
+            key = f"{name}@{i}"
+            types[key] = t
+            writes[key] = [(z3.BoolVal(True), z3.IntVal(0), z3.IntVal(0) if t == "int" else z3.BoolVal(False))]
         for k, ins in enumerate(flat):
             c = z3.Int(f"c_{i}_{k}")
             clocks.append(c)
@@ -264,6 +295,10 @@ def encode(progs, enter, exit_, timeout_ms, witness=False):
                 rv = z3.Const(f"r_{i}_{k}_{v}", z3.IntSort() if SHARED[v] == "int" else z3.BoolSort())
                 env[v] = rv
                 reads.append((ex, c, v, rv))
+            for v in local_names(ins, loc):
+                rv = z3.Const(f"r_{i}_{k}_{v}", z3.IntSort() if loc[v] == "int" else z3.BoolSort())
+                env[v] = rv
+                reads.append((ex, c, f"{v}@{i}", rv))
             kind = ins[0]
             if kind == "acquire":
                 s.add(z3.Implies(ex, env["lock"] == -1))
@@ -271,10 +306,8 @@ def encode(progs, enter, exit_, timeout_ms, witness=False):
             elif kind == "release":
                 writes["lock"].append((ex, c, z3.IntVal(-1)))
             elif kind == "assign":
-                if ins[1] not in SHARED:
-                    raise CannotEncode("assignment to " + ins[1])
                 val = ev(ins[2], env)
-                writes[ins[1]].append((ex, c, val))
+                writes[ins[1] if ins[1] in SHARED else f"{ins[1]}@{i}"].append((ex, c, val))
                 if ins[1] == "_active_z3_calls":
                     bad.append(("counter negative", z3.And(ex, val < 0)))
             elif kind == "call":
